@@ -150,8 +150,9 @@ PROPS = {
         level_text="Lean theorems: weak normalisation |lo| <= ulp(hi) of dd + - * (what the closing three_sum guarantees, p >= 6, any "
                    "cancellation, subnormals); proved relative error 3*2^(-2p) (3*2^-106) for dd + and -; exactness clauses (dd sum and dd product of "
                    "two doubles exact with correctly rounded head, x-x = 0, multiplication by a power of two exact incl. subnormal tails); NaN/inf "
-                   "propagation of + - * /; counterexample theorems where the pinned code deviates (strict normalisation D21, finite/inf, sqrt(inf), "
-                   "x/0 sign, DBL_MAX*0.5); the relative-error constants of * / sqrt and of qd are measured exactly on rationals for every "
+                   "propagation of + - * /, dd division agrees with double division on every special-value case (finite/inf, x/+-0 signs, inf/inf, 0/0) and "
+                   "sqrt(+inf) = +inf (after the fix: commits); counterexample theorems where the code deviates (strict normalisation D21, "
+                   "DBL_MAX*0.5); the relative-error constants of * / sqrt and of qd are measured exactly on rationals for every "
                    "transcript line, not proved",
         level_note="partial: error bounds of dd * / sqrt and all qd bounds are measured only (k = 4 for *, 10 for / and sqrt; 4*2^-212 for qd); "
                    "trusted: Lean kernel, hand-written model, g++ 12.2",
